@@ -22,6 +22,7 @@ type simCase struct {
 	Prof    sim.Profile
 	Note    string
 	Prepare func(w *sim.World, wl *sim.Workload)
+	Reseed  bool // generate the workload from Opt.Seed rather than from the case's PRNG stream
 }
 
 // simSpec describes a simulation-decided property check.
@@ -63,14 +64,40 @@ func jobCfg(ttl, pending, force int64) *configv1alpha1.JobExecutionConfig {
 	}
 }
 
+// simPool holds the workload builders of every simulation-decided check: each check also judges
+// its own property on a share of the other checks' workloads (a monitor is only as good as the
+// histories it sees, and the other properties' workloads reach states its own does not).
+var simPool []func(env *core.Env, i int, r *rand.Rand) simCase
+var simPoolNames []string
+
+func (spec *simSpec) own(tier string) int {
+	if tier == "thorough" {
+		return spec.Thorough
+	}
+	return spec.Quick
+}
+
 func runSim(spec *simSpec, env *core.Env, res *core.Result) {
 	silenceLogs()
+	own := spec.own(env.Tier)
 	for i := env.From; i < env.To; i++ {
 		res.Cases++
 		r := env.Rand(i)
-		sc := spec.Build(env, i, r)
+		var sc simCase
+		if i < own {
+			sc = spec.Build(env, i, r)
+		} else {
+			k := (i - own) % len(simPool)
+			sc = simPool[k](env, i, r)
+			sc.Note = strings.TrimSpace(sc.Note + " [workload of " + simPoolNames[k] + "]")
+			res.Count("cross_workload_cases", 1)
+		}
 		w := sim.NewWorld(sc.Opt)
-		wl := sim.Gen(r, sc.Prof)
+		gr := r
+		if sc.Reseed {
+			gr = rand.New(rand.NewSource(sc.Opt.Seed))
+		}
+		wl := sim.Gen(gr, sc.Prof)
 		if sc.Prepare != nil {
 			sc.Prepare(w, wl)
 		}
@@ -133,17 +160,14 @@ func head(l []string, n int) []string {
 }
 
 func registerSim(spec *simSpec) {
+	simPool = append(simPool, spec.Build)
+	simPoolNames = append(simPoolNames, spec.ID)
 	core.Register(&core.Check{
 		ID:          spec.ID,
 		Level:       spec.Level,
 		Rule:        spec.Rule,
 		Assumptions: append([]string{"simulated API server/kubelet (DESIGN.md 3.1) stand in for kube-apiserver, etcd and the node; one seeded schedule per case at API-call / informer-delivery / tick granularity"}, spec.Assume...),
-		Cases: func(tier string) int {
-			if tier == "thorough" {
-				return spec.Thorough
-			}
-			return spec.Quick
-		},
+		Cases:    func(tier string) int { return spec.own(tier) + spec.own(tier)/3 },
 		Run:      func(env *core.Env, res *core.Result) { runSim(spec, env, res) },
 		Phases:   spec.Phases,
 		RacePkgs: spec.RacePkgs,
